@@ -21,19 +21,19 @@ CHECKS = {
  "C02": ("exploration", "an independent reference writer renders random abstract documents with every lexical/structural freedom of ISO 32000-1 7.2-7.5 randomised; lopdf must load exactly the abstract objects, trailer and version; every generated file is cross-checked by the strict reader first",
          "trusted: REF-W (Appendix B of DESIGN.md) and STRICT-R, which validate each other on every case; CANON with the two stated equivalences (null entry = absent, indirect Length = integer)",
          "differential testing against an independent reference writer, driven by proptest (choice-tape style generation)"),
- "C07": ("exploration", "histories = base + 1..3 update revisions rendered by the reference writer (tables/streams, plain/ObjStm) and every %%EOF-prefix loaded and compared with the 'latest wins' model; and 1..4 chained IncrementalDocument updates on foreign or own base files checked for verbatim prefix, one new section with the right Prev, exactly the edited objects in the tail, unchanged previous view and correct reload",
+ "C07": ("exploration", "histories = base + 1..3 update revisions rendered by the reference writer (tables/streams, plain/ObjStm) and every %%EOF-prefix loaded and compared with the 'latest wins' model; and 1..4 chained IncrementalDocument updates on foreign or own base files checked for verbatim prefix, one new section with the right Prev, exactly the edited objects in the tail, unchanged previous view and correct reload; the same histories encrypted by the reference security handler while writing (object-stream members plain, containers encrypted) and read back after decrypt(user password); the update API's resource helpers (add_xobject / add_graphics_state) among the edits",
          "trusted: REF-W, STRICT-R, CANON (as in C02/C03)",
          "property-based testing over histories (vec of revisions / vec of edit lists) against a reference model; differential with a reference writer and strict reader"),
- "C08": ("exploration", "files with many object streams and object numbers redefined across containers are loaded under EVERY order in which the per-container blocks can reach the merge (hook H1, n! orders, exhaustive in that dimension), inside rayon pools of 1..16 threads repeatedly, and by the sequential build; all digests must agree. Files are sampled; intra-rayon interleavings are sampled by repetition",
+ "C08": ("exploration", "files with many object streams and object numbers redefined across containers are loaded under EVERY order in which the per-container blocks can reach the merge (hook H1, n! orders, exhaustive in that dimension), inside rayon pools of 1..16 threads repeatedly, by the sequential build and by load_filtered with a keep-everything filter; all digests must agree. Two further campaigns: files with constructs only a lenient loader accepts (orphan numbers in two containers, a number listed twice in one object stream) and files encrypted with an empty user password (object streams merged after decryption). Files are sampled; intra-rayon interleavings are sampled by repetition",
          "trusted: hook H1 reorders only what thread completion could reorder; CANON digest; REF-W",
          "schedule enumeration through a merge-order hook plus repeated loads on thread pools, over proptest-generated files; differential against the sequential build"),
- "C12": ("exploration", "generated page trees (spines up to the documented depth limit with random sub-trees, empty nodes, Kids behind references, shuffled numbering) compared with an own recursive depth-first traversal; malformed variants run in an isolated worker process and must terminate and yield only page objects",
+ "C12": ("exploration", "generated page trees (spines up to the documented depth limit with random sub-trees, empty nodes, Kids behind references, shuffled numbering) compared with an own recursive depth-first traversal; malformed variants run in an isolated worker process and must terminate and yield only page objects; on cycle-free malformed trees a page may be yielded at most once per /Kids path from the root",
          "trusted: the harness's own DFS; the worker's process-level observations (exit status, panic hook, counting allocator, watchdog)",
          "property-based testing (proptest) against a reference traversal; totality observed from an isolated worker process"),
- "C13": ("exploration", "typed-chaos documents (plausible skeleton overwritten by random-kind values and cyclic/dangling references under every key the query code reads); every public read-only query is called for every object id inside an isolated worker with an 8 MiB stack, allocation limits and a watchdog; the oracle is totality; thorough tier adds a coverage-guided libFuzzer campaign over raw file bytes (load, then every query) whose artefacts are confirmed in the worker",
+ "C13": ("exploration", "typed-chaos documents (plausible skeleton overwritten by random-kind values and cyclic/dangling references under every key the query code reads); plus long chains (1-3000 objects linked through one followed key) and ladders (shared nodes on up to 70 levels); every public read-only query is called for every object id inside an isolated worker with an 8 MiB stack, allocation limits and a watchdog, and again in a worker compiled without optimisation (2 MiB stack); the oracle is totality; thorough tier adds a coverage-guided libFuzzer campaign over raw file bytes (load, then every query) whose artefacts are confirmed in the worker",
          "trusted: the worker's process-level observations; hang verdicts need confirmation alone with a 60 s budget",
          "property-based testing (proptest) with a totality oracle observed from an isolated worker process; cargo-fuzz/libFuzzer in the thorough tier"),
- "C04": ("exploration", "structure-aware mutants of valid files from three independent producers and grammar-directed adversarial constructions for all eight byte-level entry points, evaluated in an isolated worker process that observes panics (overflow checks on), aborts, stack overflows on an 8 MiB stack, allocation requests unrelated to the input size and confirmed hangs; thorough tier adds coverage-guided libFuzzer campaigns",
+ "C04": ("exploration", "structure-aware mutants of valid files from three independent producers and grammar-directed adversarial constructions for all eight byte-level entry points, evaluated in an isolated worker process that observes panics (overflow checks on), aborts, stack overflows on an 8 MiB stack, allocation requests unrelated to the input size and confirmed hangs; a second worker compiled without optimisation (2 MiB case stack) repeats the nesting ladders and a sample of the other constructions; thorough tier adds coverage-guided libFuzzer campaigns whose artefacts are confirmed in the worker",
          "trusted: the worker's process-level observations (exit status, panic hook, counting allocator with the stated thresholds, watchdog with confirmation run)",
          "structure-aware mutation fuzzing driven by proptest plus grammar-based generators; process-isolated totality oracle; cargo-fuzz/libFuzzer in the thorough tier"),
  "C15": ("exploration", "mapping tables are generated as ordered definition lists with deliberate overlaps/adjacencies and rendered as CMaps with randomised sectioning, range splitting and white-space; decode_text over the mapped codes must equal the 'last definition wins' reference model",
@@ -57,7 +57,7 @@ CHECKS = {
  "C05": ("exploration", "generated documents x every supported handler version, key length, crypt-filter assignment (incl. predefined Identity and per-stream Crypt overrides), EncryptMetadata, permissions and password classes; encrypt then decrypt with user AND owner password, in memory and through save/load, must restore every string and stream; ciphertext must differ from plaintext; wrong passwords must be rejected without side effects",
          "trusted: the harness's reading of which strings/streams a filter applies to (ISO 32000-1 7.6.1, 7.6.5); independent password preparation tables; CANON",
          "property-based testing (proptest), round-trip oracle plus negative (wrong password) oracle"),
- "C06": ("exploration", "differential testing in both directions against an independent implementation of ISO 32000 Algorithms 1-13 over own MD5/SHA-2/AES/RC4 (known-answer tested): lopdf-encrypted documents (memory and saved file via the strict reader) must open in the reference with both passwords and valid /Perms; reference-encrypted files rendered by the reference writer must open in lopdf with both passwords",
+ "C06": ("exploration", "differential testing in both directions against an independent implementation of ISO 32000 Algorithms 1-13 over own MD5/SHA-2/AES/RC4 (known-answer tested): lopdf-encrypted documents (memory and saved file via the strict reader) must open in the reference with both passwords and valid /Perms; reference-encrypted files rendered by the reference writer must open in lopdf with both passwords (a third of them with object streams: members plain, containers encrypted)",
          "trusted: REF-SEC and its primitives (KATs from hashlib/openssl), REF-W, STRICT-R; SASLprep/PDFDocEncoding tables from Python",
          "differential property-based testing (proptest) against an independent reference security handler, both directions"),
 }
